@@ -910,5 +910,6 @@ def run(chk):
     from . import c09
 
     c09.r09_4(chk)
+    c09.r09_15(chk)
     chk.assume("util/deserialise.py is imported (and registers its keys) before any other registering module, because each of them imports register_deserialiser from it")
     chk.assume("classes listed in NOT_SERIALISABLE are outside the serialisable API (each with its reason)")
